@@ -189,6 +189,8 @@ def gen_desc(r, cfg, depth=0, top=True):
         if cfg.allow_constraints and r.random() < 0.4:
             lo = r.choice([0, 1, 2])
             d['con'] = {'size': [lo, lo + r.choice([0, 1, 3])]}
+            if lo and r.random() < 0.15:
+                d['con'] = {'size': [lo, 'MAX']}
             if r.random() < 0.35:
                 # the same SIZE declared through the documented legacy keyword, on a derived type
                 d['con_api'] = r.choice(['sizeSpec-subtype', 'sizeSpec-clone', 'sizeSpec-init'])
@@ -224,7 +226,10 @@ def gen_prim(r, cfg, k):
             d['con'] = {'range': [lo, lo + r.choice([0, 1, 10, 1000, 2 ** 33])]}
             x_ = r.random()
             hi_ = d['con']['range'][1]
-            if x_ < 0.2 and hi_ - lo >= 10:
+            if x_ > 0.85:
+                # half-open: (lo..MAX) or (MIN..hi)
+                d['con'] = {'range': [lo, 'MAX']} if r.random() < 0.6 else {'range': ['MIN', hi_]}
+            elif x_ < 0.2 and hi_ - lo >= 10:
                 # exclusion of two operands:  INTEGER (lo..hi) (ALL EXCEPT ((a..b) | v))
                 a_ = lo + 1
                 d['con']['except'] = [[a_, a_ + r.choice([0, 2])], hi_ - 1]
@@ -238,6 +243,8 @@ def gen_prim(r, cfg, k):
         elif k in ('OCTETSTRING',) + CHARS:
             lo = r.choice([0, 1, 2, 4])
             d['con'] = {'size': [lo, lo + r.choice([0, 1, 4, 200])]}
+            if lo and r.random() < 0.15:
+                d['con'] = {'size': [lo, 'MAX']}
             if k in CHARS and r.random() < 0.4:
                 # permitted alphabet (FROM ...), alone or together with the size
                 pool = [c for c in ALPHABETS[k] if c not in '\n\r']
@@ -460,11 +467,21 @@ def _len_choice(r, vc, lo=0, hi=None):
     return r.choice(pool)
 
 
+def gen_bounds(pair):
+    """Finite stand-ins for open ends, for value generation only."""
+    lo, hi = pair
+    if lo == 'MIN':
+        lo = hi - 1000
+    if hi == 'MAX':
+        hi = lo + 1000
+    return lo, hi
+
+
 def int_con_ok(con, x):
     """The INTEGER constraint forms of the universe as a plain predicate."""
     if 'union' in con:
         return any(a <= x <= b for a, b in con['union'])
-    if 'range' in con and not con['range'][0] <= x <= con['range'][1]:
+    if 'range' in con and not _bound(con['range'][0]) <= x <= _bound(con['range'][1]):
         return False
     if 'refine_values' in con and x not in con['refine_values']:
         return False
@@ -509,7 +526,7 @@ def _gen_value(r, desc, vc=None, govmap=None):
             a, b = r.choice(con['union'])
             return r.choice([a, b, r.randint(a, b)])
         if 'range' in con:
-            lo, hi = con['range']
+            lo, hi = gen_bounds(con['range'])
             for _ in range(8):
                 x = r.choice([lo, hi, (lo + hi) // 2, r.randint(lo, hi)])
                 if int_con_ok(con, x):
@@ -522,10 +539,12 @@ def _gen_value(r, desc, vc=None, govmap=None):
         return ''
     if k == 'BITSTRING':
         lo, hi = con.get('size', [0, None])
+        hi = None if hi == 'MAX' else hi
         n = _len_choice(r, ValCfg(small=True), lo, hi if hi is not None else 40)
         return ''.join(r.choice('01') for _ in range(n))
     if k == 'OCTETSTRING':
         lo, hi = con.get('size', [0, None])
+        hi = None if hi == 'MAX' else hi
         n = _len_choice(r, vc, lo, hi)
         return bytes(r.randrange(256) for _ in range(n)).hex()
     if k == 'OID':
@@ -538,6 +557,7 @@ def _gen_value(r, desc, vc=None, govmap=None):
                          [-7, 2, -3], [1, 10, 0], 1e-300, 123456789.0])
     if k in CHARS:
         lo, hi = con.get('size', [0, None])
+        hi = None if hi == 'MAX' else hi
         n = _len_choice(r, vc, lo, hi)
         alpha = con.get('alpha') or ALPHABETS[k]
         return ''.join(r.choice(alpha) for _ in range(n))
@@ -575,6 +595,7 @@ def _gen_value(r, desc, vc=None, govmap=None):
         return out
     if k in ('SEQOF', 'SETOF'):
         lo, hi = con.get('size', [0, None])
+        hi = None if hi == 'MAX' else hi
         pool = [0, 1, 2, 3, 5] if not vc.small else [0, 1, 2]
         pool = [x for x in pool if x >= lo and (hi is None or x <= hi)] or [lo]
         n = r.choice(pool)
@@ -647,11 +668,16 @@ def _tag_class(c):
             'P': p.tag.tagClassPrivate}[c]
 
 
+def _bound(x):
+    """'MIN' / 'MAX' are the open ends of a range (float infinities, as generated modules write them)."""
+    return float('-inf') if x == 'MIN' else float('inf') if x == 'MAX' else x
+
+
 def _constraint(desc):
     con = desc.get('con') or {}
     cs = []
     if 'range' in con:
-        cs.append(p.constraint.ValueRangeConstraint(con['range'][0], con['range'][1]))
+        cs.append(p.constraint.ValueRangeConstraint(_bound(con['range'][0]), _bound(con['range'][1])))
     if 'except' in con:
         (a, b), v = con['except']
         cs.append(p.constraint.ConstraintsExclusion(p.constraint.ValueRangeConstraint(a, b),
@@ -659,7 +685,7 @@ def _constraint(desc):
     if 'union' in con:
         cs.append(p.constraint.ConstraintsUnion(*[p.constraint.ValueRangeConstraint(a, b) for a, b in con['union']]))
     if 'size' in con:
-        cs.append(p.constraint.ValueSizeConstraint(con['size'][0], con['size'][1]))
+        cs.append(p.constraint.ValueSizeConstraint(con['size'][0], _bound(con['size'][1])))
     if 'alpha' in con:
         cs.append(p.constraint.PermittedAlphabetConstraint(*list(con['alpha'])))
     if not cs:
@@ -1201,19 +1227,19 @@ def conforms(obj, desc, schema, path='$'):
         if not obj.isValue:
             return '%s: not a value' % path
         if 'range' in con:
-            lo, hi = con['range']
+            lo, hi = _bound(con['range'][0]), _bound(con['range'][1])
             if not lo <= int(obj) <= hi:
-                return '%s: %d outside %d..%d' % (path, int(obj), lo, hi)
+                return '%s: %d outside %s..%s' % (path, int(obj), con['range'][0], con['range'][1])
         if 'refine_values' in con:
             if int(obj) not in con['refine_values']:
                 return '%s: %d outside the permitted values %r' % (path, int(obj), con['refine_values'])
         if ('except' in con or 'union' in con) and not int_con_ok(con, int(obj)):
             return '%s: %d outside %r' % (path, int(obj), {k_: con[k_] for k_ in ('range', 'except', 'union') if k_ in con})
         if 'size' in con:
-            lo, hi = con['size']
+            lo, hi = con['size'][0], _bound(con['size'][1])
             n = len(obj)
             if not lo <= n <= hi:
-                return '%s: size %d outside %d..%d' % (path, n, lo, hi)
+                return '%s: size %d outside %s..%s' % (path, n, lo, con['size'][1])
         if 'alpha' in con:
             text = str(obj)
             bad = [c for c in text if c not in con['alpha']]
@@ -1244,9 +1270,9 @@ def conforms(obj, desc, schema, path='$'):
         if not obj.isValue:
             return '%s: not a value (placeholder inside)' % path
         if 'size' in con:
-            lo, hi = con['size']
+            lo, hi = con['size'][0], _bound(con['size'][1])
             if not lo <= n <= hi:
-                return '%s: %d elements outside SIZE(%d..%d)' % (path, n, lo, hi)
+                return '%s: %d elements outside SIZE(%s..%s)' % (path, n, lo, con['size'][1])
         for i in range(n):
             c = obj.getComponentByPosition(i, default=None, instantiate=False)
             if c is None:
